@@ -20,6 +20,7 @@ import (
 	"verif/harness/core"
 	"verif/harness/gen"
 	"verif/harness/props/c02"
+	altvendor "verif/harness/props/c17/alt/vendor"
 	"verif/harness/props/c17/vendor"
 	"verif/harness/ref"
 	"verif/harness/xtree"
@@ -353,7 +354,10 @@ func maskTypes() []maskType {
 				b, err := rt(enc, kmip.CryptographicUsageMask(v), &out)
 				return int32(out), b, err
 			},
-			func(v int32) (string, error) { b, err := kmip.CryptographicUsageMask(v).MarshalText(); return string(b), err },
+			func(v int32) (string, error) {
+				b, err := kmip.CryptographicUsageMask(v).MarshalText()
+				return string(b), err
+			},
 			func(s string) (int32, error) {
 				m := kmip.CryptographicUsageMask(0x55555555) // the destination is not always a fresh variable
 				err := m.UnmarshalText([]byte(s))
@@ -366,7 +370,10 @@ func maskTypes() []maskType {
 				b, err := rt(enc, kmip.StorageStatusMask(v), &out)
 				return int32(out), b, err
 			},
-			func(v int32) (string, error) { b, err := kmip.StorageStatusMask(v).MarshalText(); return string(b), err },
+			func(v int32) (string, error) {
+				b, err := kmip.StorageStatusMask(v).MarshalText()
+				return string(b), err
+			},
 			func(s string) (int32, error) {
 				m := kmip.StorageStatusMask(-1)
 				err := m.UnmarshalText([]byte(s))
@@ -521,7 +528,7 @@ func vendorTypeNames(c *core.Ctx, r *core.Rand, i int) {
 	ttlv.RegisterTag("X-AcmeKind", vendor.TagKind)
 	ttlv.RegisterEnum(vendor.TagState, vendor.States)
 	ttlv.RegisterEnum(vendor.TagKind, vendor.Kinds)
-	w := &walker{c: c, reg: ref.LoadRegistry(), own: map[int]bool{vendor.TagState: true, vendor.TagKind: true}}
+	w := &walker{c: c, reg: ref.LoadRegistry(), own: map[int]bool{vendor.TagState: true, vendor.TagKind: true, altvendor.TagState: true}}
 	type form struct {
 		name   string
 		newEnc func() ttlv.Encoder
@@ -577,6 +584,47 @@ func vendorTypeNames(c *core.Ctx, r *core.Rand, i int) {
 			got, err := decode(f, []byte(f.doc(foreign[0], foreign[1])))
 			w.check(err != nil, "C17:vendor-type-named-like-standard-tag:"+f.name+":foreign-name-accepted",
 				fmt.Sprintf("names %q/%q, one of which belongs to the standard State/ObjectType scope only, are accepted in the vendor scopes as %d/%d", foreign[0], foreign[1], got.State, got.Kind), nil)
+		}
+	}
+	// a second supplier's package, also called "vendor", with a type also called State (and a Report structure): another
+	// import path, another tag, other names. Values of both are written in turn; each scope keeps its own names.
+	ttlv.RegisterTag("X-GlobexUnit", altvendor.TagUnit)
+	ttlv.RegisterTag("X-GlobexState", altvendor.TagState)
+	ttlv.RegisterTag("X-GlobexReport", altvendor.TagReport)
+	ttlv.RegisterEnum(altvendor.TagState, altvendor.States)
+	for _, f := range forms {
+		for round := 0; round < 2; round++ {
+			for sn, sname := range altvendor.States {
+				c.Count("same_named_type_values", 1)
+				var raw, rawBare, rawFirst []byte
+				if p, pv, stk := core.Guard(func() {
+					enc := f.newEnc()
+					enc.TagAny(altvendor.TagReport, &altvendor.Report{Unit: "g1", State: sn})
+					raw = append([]byte{}, enc.Bytes()...)
+					enc = f.newEnc()
+					enc.TagAny(altvendor.TagState, sn)
+					rawBare = append([]byte{}, enc.Bytes()...)
+					enc = f.newEnc()
+					enc.TagAny(vendor.TagState, vendor.State(2))
+					rawFirst = append([]byte{}, enc.Bytes()...)
+				}); p {
+					c.Violation(core.PanicSig(pv, stk), fmt.Sprintf("encoding a vendor enumeration panicked: %v", pv), map[string]any{"stack": stk})
+					return
+				}
+				sig := "C17:same-named-types-of-two-packages:" + f.name
+				w.check(strings.Contains(string(raw), f.quoted(sname)) && strings.Contains(string(raw), "X-GlobexState"), sig,
+					fmt.Sprintf("value %d (%s) of the second package's State type, inside its Report structure, is written in %s as %s", sn, sname, f.name, raw), nil)
+				w.check(strings.Contains(string(rawBare), f.quoted(sname)), sig,
+					fmt.Sprintf("value %d (%s) of the second package's State type is written in %s as %s", sn, sname, f.name, rawBare), nil)
+				w.check(strings.Contains(string(rawFirst), f.quoted("Busy")), sig,
+					fmt.Sprintf("value 2 (Busy) of the first package's State type is written in %s as %s after values of the second package's type were written", f.name, rawFirst), nil)
+				var back altvendor.Report
+				dec, derr := f.newDec(raw)
+				if derr == nil {
+					derr = dec.TagAny(altvendor.TagReport, &back)
+				}
+				w.check(derr == nil && back.State == sn && back.Unit == "g1", sig, fmt.Sprintf("the second package's Report written as %s is read back as %+v (%v)", raw, back, derr), nil)
+			}
 		}
 	}
 	// a vendor bit mask with reserved positions: names denote their own bits
@@ -668,7 +716,7 @@ func Spec() *core.Spec {
 			"written and read back by name through XML, JSON, binary and the text form), repeated in 3 fresh processes whose observations are compared; once more in a fresh process after vendor extension values (0x8000000x) were registered for three already registered enumerations; plus every element, enumeration-value and mask-flag name used by the 5318 messages of the shipped OASIS vectors (documents produced elsewhere) resolved through pin and library; " +
 			"vendor enumerations under extension tags whose Go type names equal standard tag names; distinct = distinct registered (scope,name) entries visited",
 		Assumptions: []string{"/verif/ref/registry.json is the pinned KMIP 1.0-1.4 registry (dumped from the pinned tree and reviewed against the specification tables)"},
-		Required:    []string{"checks", "unregistered_numbers", "unknown_names", "mask_values.named-pair", "oasis_names.tag", "oasis_names.enum", "oasis_names.mask", "vendor_extension_values", "vendor_type_name_values", "concurrent_name_lookups", "vendor_mask_flags"},
+		Required:    []string{"checks", "unregistered_numbers", "unknown_names", "mask_values.named-pair", "oasis_names.tag", "oasis_names.enum", "oasis_names.mask", "vendor_extension_values", "vendor_type_name_values", "concurrent_name_lookups", "vendor_mask_flags", "same_named_type_values"},
 		EvalCounter: "checks",
 		Families: []core.Family{
 			{Name: "walk", Isolated: true, Exhaustive: true, N: func(string) int { return 3 }, Run: func(c *core.Ctx, r *core.Rand, i int) {
